@@ -17,6 +17,8 @@ use std::path::PathBuf;
 fn res_of(r: Result<Result<(), Error>, String>) -> String {
     match r {
         Ok(Ok(())) => "ok".to_string(),
+        // (a write that accepted nothing surfaces as ErrorKind::WriteZero from write_all: that IS the injected failure)
+        Ok(Err(Error::IoError(io))) if io.kind() == std::io::ErrorKind::WriteZero => "io_injected".to_string(),
         Ok(Err(e)) => err_json(&e)["err"].as_str().unwrap().to_string(),
         Err(_) => "panic".to_string(),
     }
@@ -62,6 +64,7 @@ pub fn run_fault_kind(tr: &mut Trace, c: &Conc, t: i32, hist: &str, syms: &Syms,
     let target = if dest == "shp" { shp.clone() } else { shx.clone() };
     target.set_fault(Some(k), mode == "persistent", partial);
     target.set_interrupted(interrupted);
+    target.set_zero_mode(mode == "zero");
     let mut w = Some(ShapeWriter::with_shx(shp.clone(), shx.clone()));
     let mut accepted: Vec<Shape> = vec![];
     let fired_total = |a: &LogDest, b: &LogDest| a.faults_fired() + b.faults_fired();
@@ -151,6 +154,10 @@ pub fn run(a: &Args) {
                     if nonwrite {
                         // the same failing seek / flush, reported the way EINTR is
                         run_fault_kind(&mut traces[i], c, t, hist, &syms, dest, k, "oneshot", 0, &prop, true);
+                        cases += 1;
+                    } else if k < n {
+                        // the same failing write, as a destination that is full: it accepts 0 bytes and says so
+                        run_fault(&mut traces[i], c, t, hist, &syms, dest, k, "zero", 0, &prop);
                         cases += 1;
                     }
                     if k % 3 == 0 {
